@@ -120,7 +120,11 @@ type hist = {
   mutable tw_sizes : n list;               (* sizes of pending try_with slots *)
   mutable tw_slots : (n * n) list;         (* implementation side: (address, size) of pending slots *)
   mutable dead : bool;
+  uniform : n;                             (* 0, or the one alignment of a uniform history *)
+  mutable ubytes : n;                      (* uniform history: bytes allocated since the last reset *)
 }
+
+let neq_zero (x : n) = (match x with N0 -> false | _ -> true)
 
 let kv_of s =
   List.fold_left (fun acc it ->
@@ -141,7 +145,8 @@ let new_hist (line : string) : hist =
   if not (cfg_okb k) then
     report_spec ~prop:"C04" ~pred:"cfg_ok" ~detail:("the_static_EMPTY_CHUNK_or_the_constants_do_not_meet_cfg_ok:eaddr=" ^ get "eaddr" ^ "_malign=" ^ get "malign");
   { k; b = fresh; held = []; live = []; p_ab = N0; p_abim = N0; p_cap = N0; p_chunks = [];
-    feat = []; sig_ = Buffer.create 256; tw_sizes = []; tw_slots = []; dead = false }
+    feat = []; sig_ = Buffer.create 256; tw_sizes = []; tw_slots = []; dead = false;
+    uniform = (try n_of_string (get "uniform") with Not_found -> N0); ubytes = N0 }
 
 let lay s a = { l_size = n_of_string s; l_align = n_of_string a }
 
@@ -286,6 +291,15 @@ let handle_op (h : hist) (line : string) =
                          (match lim_before with Some l -> string_of_n l | None -> "-") (string_of_n !ab_run) (string_of_n s));
           ab_run := N.add !ab_run (N.sub s k.k_footer)
         | None -> ()) o.reqs;
+    (* C18: geometric growth.  A chunk obtained for an allocation at the very first attempt (no
+       refusal before it), with no limit set, at least doubles the chunk that was current *)
+    (match o.reqs, h.held, mi.born with
+     | [(s, _, Some _)], ((_, prev), _) :: _, Some (rsize, _)
+       when (kind = "alloc" || kind = "grow" || kind = "realloc" || kind = "shrink") && N.ltb prev (n_of_string "1099511627776") ->
+       if not (sp_growth_ok k lim_before prev s rsize) then
+         report_spec ~prop:"C18" ~pred:"sp_growth_ok"
+           ~detail:(Printf.sprintf "prev_chunk=%s new_chunk=%s request=%s" (string_of_n prev) (string_of_n s) (string_of_n rsize))
+     | _ -> ());
     (* C03: frees *)
     if o.frees <> [] && kind <> "reset" && kind <> "drop" then
       report_spec ~prop:"C03" ~pred:"free_only_in_reset_drop" ~detail:(show_list show_g o.frees);
@@ -320,6 +334,7 @@ let handle_op (h : hist) (line : string) =
      | "dealloc" -> (match mi.dies with Some d -> h.live <- remove_live d h.live | None -> ())
      | "twbegin" -> if impl_ok then h.tw_sizes <- (match mi.mop with OTwBegin l -> l.l_size | _ -> N0) :: h.tw_sizes
      | _ -> ());
+    let tw_done_ok = (if kind = "twend" && impl_ok then (match h.tw_sizes with sz :: _ -> Some sz | [] -> None) else None) in
     let via_allocator = (kind = "grow" || kind = "shrink" || (kind = "alloc" && List.mem "allocate" args)) in
     let check_block p size align =
       if not (sp_block_ok k h.held h.live p size) then begin
@@ -353,6 +368,19 @@ let handle_op (h : hist) (line : string) =
           if not impl_ok then h.live <- remove_live slot h.live
         | _ -> ())
      | _ -> ());
+    (* C10, byte-exact clause, in uniform histories *)
+    if neq_zero h.uniform then begin
+      (match kind, impl_addr, mi.born with
+       | "alloc", Some _, Some (size, _) -> h.ubytes <- N.add h.ubytes size
+       | "reset", _, _ -> h.ubytes <- N0
+       | _ -> ());
+      (match tw_done_ok with Some sz -> h.ubytes <- N.add h.ubytes sz | None -> ());
+      let pending = List.fold_left N.add N0 h.tw_sizes in
+      if kind <> "drop" && not (sp_iter_exact o.ichunks (N.add h.ubytes pending)) then
+        report_spec ~prop:"C10" ~pred:"sp_iter_exact_uniform"
+          ~detail:(Printf.sprintf "align=%s allocated=%s slices=%s" (string_of_n h.uniform) (string_of_n (N.add h.ubytes pending)) (show_list show_pair o.ichunks));
+      bump_count "feat:uniform_op"
+    end;
     (* C10: chunk iteration *)
     if kind <> "drop" && not (sp_iter_ok k h.held h.live o.ichunks) then
       report_spec ~prop:"C10" ~pred:"sp_iter_ok" ~detail:(show_list show_pair o.ichunks);
